@@ -312,3 +312,40 @@ def run (w : World) : List (List Tx × Int) → World
   | op :: rest => run (block w op.1 op.2).1 rest
 
 end Goloop.C34
+
+namespace Goloop.C34
+
+/-! ### penalties (parameterised step, outside `Tx` / `run`: not covered by the theorems)
+
+`ExtensionStateImpl.slash` for P-Rep `k` with slashing `rate` (< 100 %) over the bonder accounts
+`bonders` (the P-Rep's bonder list — a parameter): every bonder loses rate·bond and rate·unbond
+for `k` from its bond entry, its unbond entry and its stake; the network stake and the supply
+(burn) go down by the sum of both, the P-Rep's bonded amount and the total bond by the bond part. -/
+
+def rateMul (rate v : Int) : Int := (v * rate).tdiv 10000
+
+def slashAcct (a : Account) (k : Nat) (rate : Int) : Account × Int × Int :=
+  let sb := sumInt ((a.bonds.filter (fun b => b.1 == k)).map (fun b => rateMul rate b.2))
+  let su := sumInt ((a.unbonds.filter (fun u => u.1 == k)).map (fun u => rateMul rate u.2.1))
+  ({ a with
+     bonds := a.bonds.map (fun b => if b.1 == k then (b.1, b.2 - rateMul rate b.2) else b),
+     unbonds := a.unbonds.map (fun u => if u.1 == k then (u.1, u.2.1 - rateMul rate u.2.1, u.2.2) else u),
+     stake := a.stake - (sb + su) }, sb, su)
+
+def slashWorld (w : World) (k : Nat) (rate : Int) (bonders : List Nat) : World :=
+  bonders.foldl (fun w i =>
+    let r := slashAcct (getAcct w i) k rate
+    { setAcct w i r.1 with
+      totalStake := w.totalStake - (r.2.1 + r.2.2),
+      totalSupply := w.totalSupply - (r.2.1 + r.2.2),
+      totalBond := w.totalBond - r.2.1,
+      pBonded := fun x => if x = k then w.pBonded x - r.2.1 else w.pBonded x }) w
+
+/-- a block whose only transaction is a penalty with slashing (`applied = false`: the report was
+    ignored, e.g. the P-Rep is already in jail — observed, a parameter) -/
+def penaltyBlock (w : World) (k : Nat) (rate : Int) (bonders : List Nat) (applied : Bool) : World :=
+  let w0 := { w with height := w.height + 1 }
+  let w1 := if applied then slashWorld w0 k rate bonders else w0
+  { w1 with accts := w1.accts.map (fire w1.height) }
+
+end Goloop.C34
